@@ -262,7 +262,7 @@ var floats = []float64{0, math.Copysign(0, -1), 1, -1.5, 1e21, 1e-7, math.MaxFlo
 var ints = []int64{0, 1, -1, math.MaxInt64, math.MinInt64, 1 << 53, -(1 << 53) - 1, 42}
 var uints = []uint64{0, 1, math.MaxUint64, 1 << 63, 1<<53 + 1}
 var rawJSON = []string{"{\n  \"a\": 1,\n  \"b\": [\n    1,\n\t2\n  ]\n}", "[\n1\n]\n", "\r\n \"s\" \r\n", `1`, `"s"`, `null`, `{"a":1,"a":2}`, `[1,{"b":[]}]`, ` { "x" : 1.50 } `, `12345678901234567890`, `"\ud83d\ude00<>&"`, `{}`, `[]`, `true`,
-	"\"a\xffb\"", "{\"k\xfe\":[\"\xc3\",\"\xed\xa0\x80\"]}", "[\"\xf0\x9f\x98\"]"} // the last three: well-formed but for bytes that are not UTF-8 inside strings
+	"\"a\xffb\"", "{\"k\xfe\":[\"\xc3\",\"\xed\xa0\x80\"]}", "[\"\xf0\x9f\x98\"]", "\"\u00e9\xff\u6f22\xfe\U0001f600\""} // the last four: well-formed but for bytes that are not UTF-8 inside strings
 var garbage = []string{`{`, `{"a":}`, `nope`, `"unterminated`, `1 2`, "\xff", `{"a":1}}`, `,`}
 
 func RandVal(r *rand.Rand) *Val {
